@@ -429,6 +429,9 @@ const maxFactWidth = 5
 // softRestrict: a restricted join keeps any candidate the previous state implies (instead of only its literal facts)
 var softRestrict bool
 var joinDebug, joinDumped bool
+// proveBudgetInit: search steps allowed per entailment query (joins ask very many, most of them failing;
+// obligations raise it)
+var proveBudgetInit = 90
 var joinDebug2 string
 var elimDebug string
 var proveBudget int
@@ -466,7 +469,7 @@ func (s *lstate) proves(at *atomTable, f lfact) bool {
 		}
 	}
 	l = normGE(l)
-	proveBudget = 250
+	proveBudget = proveBudgetInit
 	return n.st.prove(at, l, f.g, f.gp, 3, map[string]bool{})
 }
 
